@@ -1,4 +1,5 @@
 use crate::xml;
+use crate::xml::E57Tag;
 use crate::Result;
 use roxmltree::Node;
 
@@ -77,11 +78,11 @@ pub struct Transform {
 
 impl Transform {
     pub(crate) fn from_node(node: &Node) -> Result<Self> {
-        let translation = match node.children().find(|n| n.has_tag_name("translation")) {
+        let translation = match node.children().find(|n| n.is_e57_tag("translation")) {
             Some(node) => Translation::from_node(&node)?,
             None => Translation::default(),
         };
-        let rotation = match node.children().find(|n| n.has_tag_name("rotation")) {
+        let rotation = match node.children().find(|n| n.is_e57_tag("rotation")) {
             Some(node) => Quaternion::from_node(&node)?,
             None => Quaternion::default(),
         };
